@@ -16,6 +16,7 @@ struct Registry {
     uint32_t fresh() { alloctrack::Pause p; st.push_back(LIVE); ++constructed; return (uint32_t)(st.size() - 1); }
     bool known(uint32_t s) const { return s != 0 && s < st.size(); }
     static Registry &get() { static Registry r; return r; }
+    void reset() { alloctrack::Pause p; st.assign(1, 0); constructed = destroyed = shells = 0; }
     long count(St x) const { long n = 0; for (size_t i = 1; i < st.size(); ++i) n += st[i] == x; return n; }
 };
 
